@@ -36,8 +36,11 @@ VARIABLES cfg,      \* [I, N, C]: inputs, nodes, cores per node (fixed per behav
           grown,    \* inputs to which a simulation has been added
           top,      \* task -> the largest share of trials it has ever been asked for
           extended, \* the request has been raised after some task had run
+          progress, \* task -> <<done, of>> in its progress log (what `panqec check-progress`
+                    \* adds up), NoLog if the task never ran a trial.  An observation
+                    \* variable: not part of the VIEW, not mentioned by the invariants
           steps, hist
-vars == <<cfg, T, files, grown, top, extended, steps, hist>>
+vars == <<cfg, T, files, grown, top, extended, progress, steps, hist>>
 
 Absent == -1
 Cur == [I |-> cfg.I, N |-> cfg.N, C |-> cfg.C, T |-> T]
@@ -57,6 +60,7 @@ Pre(c) == c.I >= 1 /\ NTasks(c) >= c.I /\ c.T >= MaxTPI(c)
 Tasks == 0..(NTasks(Cur) - 1)
 TasksOf(j) == { t \in Tasks : t \div cfg.C = j - 1 }
 NoFile == [a |-> Absent, b |-> Absent]
+NoLog == <<Absent, Absent>>
 Val(x) == IF x = Absent THEN 0 ELSE x
 Stored(t) == Val(files[t].a)
 StoredB(t) == Val(files[t].b)
@@ -80,6 +84,7 @@ Init ==
   /\ top = [t \in 0..(cfg.N * cfg.C - 1) |->
               Runs([I |-> cfg.I, N |-> cfg.N, C |-> cfg.C, T |-> T], t)]
   /\ extended = FALSE
+  /\ progress = [t \in 0..(cfg.N * cfg.C - 1) |-> NoLog]
   /\ steps = 0
   /\ hist = <<[a |-> "init", trials |-> T]>>
 
@@ -97,6 +102,12 @@ UpTo(t, r, del) ==
    b |-> IF ~Grown(t) THEN (IF del THEN Absent ELSE files[t].b)
          ELSE IF del THEN r ELSE Max(StoredB(t), r)]
 After(t, del) == UpTo(t, Runs(Cur, t), del)
+\* the progress log is rewritten after every trial of the loop ("i+1/target"); a task
+\* that finds nothing left to do does not touch it
+Behind(t, del) == IF del THEN 0
+                  ELSE IF Grown(t) THEN (IF Stored(t) < StoredB(t) THEN Stored(t) ELSE StoredB(t))
+                  ELSE Stored(t)
+LogAfter(t, r, del) == IF Behind(t, del) < r THEN <<r, r>> ELSE progress[t]
 
 \* How a job is launched: by calling `panqec run-parallel` directly, or by
 \* the script that `panqec generate-cluster-script` writes for a scheduler
@@ -112,6 +123,7 @@ RunJob(j, del, via) ==
      /\ files' = f
      /\ hist' = Append(hist, [a |-> "job", job |-> j, delete |-> del, trials |-> T,
                               via |-> via, expect |-> Obs(f)])
+  /\ progress' = [t \in Tasks |-> IF t \in TasksOf(j) THEN LogAfter(t, Runs(Cur, t), del) ELSE progress[t]]
   /\ steps' = steps + 1
   /\ UNCHANGED <<cfg, T, extended, grown, top>>
 
@@ -125,6 +137,9 @@ PartialJob(j, t0, m) ==
      /\ files' = f
      /\ hist' = Append(hist, [a |-> "partial", job |-> j, task |-> t0, stop |-> m,
                               trials |-> T, expect |-> Obs(f)])
+  /\ progress' = [t \in Tasks |-> IF t = t0 THEN LogAfter(t, m, FALSE)
+                                  ELSE IF t \in TasksOf(j) THEN LogAfter(t, Runs(Cur, t), FALSE)
+                                  ELSE progress[t]]
   /\ steps' = steps + 1
   /\ UNCHANGED <<cfg, T, extended, grown, top>>
 
@@ -135,7 +150,7 @@ Grow(i) ==
   /\ grown' = grown \cup {i}
   /\ hist' = Append(hist, [a |-> "grow", input |-> i, trials |-> T])
   /\ steps' = steps + 1
-  /\ UNCHANGED <<cfg, T, files, extended, top>>
+  /\ UNCHANGED <<cfg, T, files, extended, top, progress>>
 
 \* the user asks for more trials and runs the directory again
 Extend(T2) ==
@@ -146,7 +161,7 @@ Extend(T2) ==
   /\ top' = [t \in Tasks |-> Max(top[t], Runs([I |-> cfg.I, N |-> cfg.N, C |-> cfg.C, T |-> T2], t))]
   /\ hist' = Append(hist, [a |-> "extend", trials |-> T2])
   /\ steps' = steps + 1
-  /\ UNCHANGED <<cfg, files, grown>>
+  /\ UNCHANGED <<cfg, files, grown, progress>>
 
 Next == \/ \E j \in 1..cfg.N, del \in BOOLEAN, via \in Launchers : RunJob(j, del, via)
         \/ \E j \in 1..cfg.N : \E t0 \in TasksOf(j), m \in 0..MaxT : PartialJob(j, t0, m)
